@@ -4,7 +4,7 @@ from rules import derive_rules as D
 from rules import c01, c12
 import pse
 from pse import show
-from rulelib import trace_of, calls, field_writers
+from rulelib import helpers_only_of, trace_of, calls, field_writers
 
 # std / dependency types known to contain no interior mutability (one line of reason each)
 PURE_TYPES = {
@@ -112,14 +112,22 @@ def rule_override(ctx, F, rule="R4"):
                "the override must be frame 0 with the new value (same position and easing), replacing - not merging with - "
                "any previous override; stores %s" % show(fin)[:300], b["span"], trace_of(p), what="override-merges")
     ctx.floor(rule, "override-storing paths", n, 1)
+    # who may write the fields: the constructors (from_keyframes / empty / clone), override_start_value for the override,
+    # and private helpers that only those functions can reach (e.g. a builder struct's finish())
     w = field_writers(F, c01.ST)
+    ctor = lambda b: b.get("impl_self_adt") == c01.ST and b["name"] in ("from_keyframes", "empty", "clone")
+    ctor_ov = lambda b: ctor(b) or (b.get("impl_self_adt") == c01.ST and b["name"] == "override_start_value")
+    ok_ids = helpers_only_of(F, "mina_core", ctor)
+    ok_ids_ov = helpers_only_of(F, "mina_core", ctor_ov)
+    by_path = {}
+    for bid, b in F.bodies.items():
+        by_path.setdefault(b["path"], []).append(bid)
     for fld, who in sorted(w.items()):
-        names = {x.split("::")[-1] for x in who}
-        if fld == fl["ov"]:
-            okw = names <= {"from_keyframes", "empty", "clone", "override_start_value"}
-        else:
-            okw = names <= {"from_keyframes", "empty", "clone"}
-        ctx.ob(rule, "writers[%s]" % fld, okw, "SubTimeline.%s written by %s" % (fld, sorted(names)), what="unexpected-writer")
+        allowed = ok_ids_ov if fld == fl["ov"] else ok_ids
+        bad = sorted(x for x in who if not all(bid in allowed for bid in by_path.get(x, [None])))
+        ctx.ob(rule, "writers[%s]" % fld, not bad,
+               "SubTimeline.%s may be written only by its constructors%s and their private helpers; also written by %s"
+               % (fld, " and override_start_value" if fld == fl["ov"] else "", bad), what="unexpected-writer")
 
 
 def check(ctx):
